@@ -97,11 +97,21 @@ def printed_tuples(out, tag):
     return res
 
 
-def vh(args, timeout=3600, stdin=None):
-    """Run the harness; parse its NDJSON report."""
+def vh(args, timeout=3600, stdin=None, crash=None):
+    """Run the harness; parse its NDJSON report.  `crash=(check, key, last_input_path)`: if the process is killed by a
+    signal (a segfault or abort inside the library under test) this is reported as a violation, not as a tool error."""
     t = time.time()
+    env = dict(os.environ)
+    if crash:
+        env["VH_DEBUG_LAST"] = "1"
     p = subprocess.run(["timeout", str(timeout), VH] + [str(a) for a in args], cwd=VERIF, stdout=subprocess.PIPE,
-                       stderr=subprocess.PIPE, text=True, input=stdin)
+                       stderr=subprocess.PIPE, text=True, input=stdin, env=env)
+    if crash and (p.returncode < 0 or p.returncode in (134, 139)):
+        ck, key, last = crash
+        ck.violation(key, {"vh_args": [str(a) for a in args], "last_input_file": last, "returncode": p.returncode},
+                     "harness process killed by a signal while running library code (memory-unsafety or abort); last input saved")
+        return {"viols": [], "violcounts": {}, "stats": {}, "samples": [], "rc": p.returncode, "args": [str(a) for a in args],
+                "wall_s": round(time.time() - t, 2)}
     rep = {"viols": [], "violcounts": {}, "stats": {}, "samples": [], "rc": p.returncode, "args": [str(a) for a in args],
            "wall_s": round(time.time() - t, 2)}
     ended = False
